@@ -16,7 +16,7 @@ import dns.wirebase
 import dns.zone
 import dns.zonefile
 
-from harness.common import Hang, step_budget
+from harness.common import Hang, step_budget, time_budget
 from harness.types_common import EX, IN, implemented, lmin, specimen_text
 
 PROPERTY = "C04"
@@ -278,6 +278,49 @@ def h04d_shards(tier):
     return out
 
 
+# ---------------------------------------------------------------- H04d2 long tokens (length limits counted in octets)
+
+LONG_TOKENS = ["a" * 63, "a" * 64, "a" * 255, "a" * 256, "\\200" * 63, "\\200" * 64, "\\200" * 127, "\\200" * 128, "\\200" * 255, "\\200" * 256,
+               "\u00e9" * 127, "\u00e9" * 128, "\u00e9" * 255, "1" * 20, "9" * 40, "a." * 127 + "a", "a." * 128, "\\." * 100]
+
+
+def h04d2(pick: int, quoted: bool) -> bool:
+    """A record's text with one token replaced by a long token (lengths around 63 / 255 in characters and in octets): SyntaxError family
+    only, and an accepted record renders to text and wire."""
+    c, t = S("c"), S("t")
+    parts = S("parts")
+    i = S("index")
+    tok = LONG_TOKENS[pick]
+    if quoted:
+        tok = '"' + tok + '"'
+    text = " ".join(parts[:i] + [tok] + parts[i + 1:])
+    # (the library wraps from_text in an exception converter that would also swallow the budget's Hang: note it here)
+    hung = []
+    try:
+        with time_budget(20) as fired:
+            hung = fired
+            rd = dns.rdata.from_text(c, t, text, origin=EX, relativize=False)
+    except TEXT_OK:
+        return not hung
+    except Hang:
+        return False
+    hit("accepted")
+    rd.to_text()
+    rd.to_wire(origin=EX)
+    return True
+
+
+def h04d2_pre(pick, quoted):
+    return 0 <= pick < len(LONG_TOKENS)
+
+
+def h04d2_shards(tier):
+    out = []
+    for sh in h04d_shards(tier):
+        out.append({"c": sh["c"], "t": sh["t"], "name": sh["name"], "parts": sh["parts"], "index": sh["index"], "_timeout": 300, "_path_timeout": 60})
+    return out
+
+
 # ---------------------------------------------------------------- H04e zone files
 
 ZONE_TEMPLATES = [
@@ -352,6 +395,11 @@ HARNESSES = [
                      "dns.tokenizer.Tokenizer.get_uint32", "dns.tokenizer.Tokenizer.get_name", "dns.tokenizer.Tokenizer.get_string"],
             bound="for every type's specimen text, each of the first 6 tokens (thorough: all) replaced by any string of <= 2 (3) characters over 0 a \\ \" . space - / = :",
             stubs=["E2", "E3", "E4"], outside="other characters; two tokens at once"),
+    Harness("H04d2", h04d2, h04d2_pre, h04d2_shards, kind="finite selection, exhaustive", batch=8,
+            encodes=["dns.rdata.from_text", "dns.rdata.Rdata._as_bytes", "dns.tokenizer.Token.unescape", "dns.tokenizer.Token.unescape_to_bytes",
+                     "dns.rdata.Rdata.to_wire", "dns.rdata.Rdata.to_text"],
+            bound="for every type's specimen text, each of the first 6 tokens (thorough: all) replaced by each of 18 long tokens (63 / 64 / 255 / 256 characters, the same counts of \\DDD escapes and of two-octet UTF-8 characters, long digit strings, 128-label names), quoted or not",
+            stubs=[], outside="other lengths"),
     Harness("H04e", h04e, h04e_pre, h04e_shards, kind="universal",
             encodes=["dns.zonefile.Reader.read", "dns.zonefile.Reader._rr_line", "dns.zonefile.Reader._generate_line", "dns.zonefile.Reader._parse_modify",
                      "dns.zone.from_text"],
